@@ -742,13 +742,36 @@ func c08R6(r *Report) {
 				return
 			}
 			n++
+			muF := p.Field("crypto", "Conn", "writemu")
+			// the write mutex is taken in the function before instruction i
+			lockedAt := func(i ssa.Instruction) bool {
+				held := false
+				allInstrs(i.Parent(), func(j ssa.Instruction) {
+					cc, okc := j.(*ssa.Call)
+					if !okc || cc.Call.IsInvoke() || calleeObj(cc) == nil || calleeObj(cc).Name() != "Lock" || len(cc.Call.Args) == 0 {
+						return
+					}
+					if fa, okf := cc.Call.Args[0].(*ssa.FieldAddr); okf && fieldVar(fa) == muF && instrDominates(cc, i) {
+						held = true
+					}
+				})
+				return held
+			}
 			ok2 := p.guardedIP(c, func(g Guard) bool {
 				x, isNil, okn := nilFact(g)
 				if !okn || !isNil {
 					return false
 				}
 				fv, _ := loadedField(x)
-				return fv == errF
+				if fv != errF {
+					return false
+				}
+				// the latched error is read while the write mutex is held: a test made before queueing on the mutex
+				// says nothing about what the writer ahead of us is about to latch
+				if ld, isI := strip(x).(ssa.Instruction); isI && muF != nil && ld.Parent() == w && w.Name() == "Write" {
+					return lockedAt(ld)
+				}
+				return true
 			}, 0)
 			r.Check(ok2, "R6", "Conn.Write/no-encrypt-after-error", c.Pos(), "nothing is encrypted once a write error is latched", "Conn.Write advances the keystream although a previous write failed: the keystream runs ahead of the wire")
 		})
